@@ -355,6 +355,9 @@ func (g *genState) genC02() {
 		}
 		g.decodeAll("alphabet", []string{"parse", "typesize", "walk", "open", "ltab", "mtab", "struct", "bytes", "str"}, in)
 	}
+	// size-field attacks: hand-built skeletons whose size varints take boundary values in every
+	// varint width (also non-canonical widths), including sums that wrap 32 bits
+	g.sizeAttacks([]string{"parse", "typesize", "walk", "open", "bytes", "str", "struct", "ltab", "mtab", "parselist", "parsemsg"})
 	// structure-aware mutants of valid encodings
 	ncorp := 300
 	if g.thor {
@@ -435,6 +438,7 @@ func (g *genState) genC13() {
 			emit("mutant", m)
 		}
 	}
+	g.sizeAttacks([]string{"c13"})
 	n := 20000
 	if g.thor {
 		n = 300000
@@ -446,5 +450,71 @@ func (g *genState) genC13() {
 			in[j] = interesting[g.r.Intn(len(interesting))]
 		}
 		emit("alphabet", in)
+	}
+}
+
+// forcedVarint encodes v as a reverse varint of the given width (1, 3 or 5 bytes) when it fits.
+func forcedVarint(v uint64, width int) []byte {
+	switch width {
+	case 1:
+		if v <= 0xfc {
+			return []byte{byte(v)}
+		}
+	case 3:
+		if v <= 0xffff {
+			return []byte{byte(v >> 8), byte(v), 0xfd}
+		}
+	case 5:
+		if v <= 0xffffffff {
+			return []byte{byte(v >> 24), byte(v >> 16), byte(v >> 8), byte(v), 0xfe}
+		}
+	}
+	return nil
+}
+
+func (g *genState) sizeAttacks(ops []string) {
+	sizes := []uint64{0, 1, 2, 3, 4, 6, 8, 0xfc, 0xfd, 0xffff, 0x10000, 0x7ffffffe, 0x7fffffff, 0x80000000, 0x80000001,
+		0xfffffff0, 0xfffffff8, 0xfffffffa, 0xfffffffb, 0xfffffffc, 0xfffffffd, 0xfffffffe, 0xffffffff}
+	payloads := [][]byte{nil, {1}, {1, 1, 3}, {7, 3, 1, 1, 0, 1, 2, 3}}
+	// bytes / string / struct: payload, size varint, type
+	for _, t := range []byte{50, 60, 90} {
+		for _, pl := range payloads {
+			for _, sz := range sizes {
+				for _, w := range []int{1, 3, 5} {
+					vi := forcedVarint(sz, w)
+					if vi == nil {
+						continue
+					}
+					in := append(append(append([]byte{}, pl...), vi...), t)
+					g.decodeAll("size-attack-scalar", ops, in)
+				}
+			}
+		}
+	}
+	// list / message: payload, table, data size varint, table size varint, type
+	tables := [][]byte{nil, {0, 1}, {1, 0, 1}, {0, 0, 0, 1}, {0, 1, 0, 0, 0, 1}, {0, 1, 0, 2}, {1, 0, 1, 2, 0, 2}}
+	for _, t := range []byte{70, 71, 80, 81} {
+		for _, pl := range payloads[:3] {
+			for _, tb := range tables {
+				tsizes := []uint64{uint64(len(tb)), 0, 3, 6, 0xfffffffd, 0xffffffff}
+				for _, ts := range tsizes {
+					dsizes := append([]uint64{uint64(len(pl)), (1 << 32) - ts, (1<<32) - ts + uint64(len(pl)), (1 << 32) - ts - 1}, sizes...)
+					for _, ds := range dsizes {
+						ds &= 0xffffffff
+						for _, w1 := range []int{1, 5} {
+							for _, w2 := range []int{1, 3, 5} {
+								v1 := forcedVarint(ts, w1)
+								v2 := forcedVarint(ds, w2)
+								if v1 == nil || v2 == nil {
+									continue
+								}
+								in := append(append(append(append(append([]byte{}, pl...), tb...), v2...), v1...), t)
+								g.decodeAll("size-attack-container", ops, in)
+							}
+						}
+					}
+				}
+			}
+		}
 	}
 }
